@@ -15,7 +15,9 @@ RULE = ("one Hypothesis-generated scenario with input-sensitive deterministic be
         "oracle = metamorphic relation: the per-simulator sequences of (time, inputs) are identical in all runs "
         "(max_advance excluded); micro-topologies get every schedule deviating from FIFO in <= 2 decision points. "
         "non-trivial = the variants really differed in their global event order and the scenario has a "
-        "connection; distinct = distinct base case hashes")
+        "connection; distinct = distinct base case hashes"
+        "; in addition four long runs (until 80 / 120 / 1100) under FIFO, LIFO and a starved simulator, and the "
+        "extreme policies (LIFO, steps first, get_data first, each simulator starved) before every schedule enumeration")
 ASSUMPTIONS = [
     "scripted deterministic simulators; dict equality after JSON normalisation",
     "a difference whose earliest divergent step is flagged by the C03 monitor with the signature of an open finding "
